@@ -142,6 +142,14 @@ func run(r *h.Run, sc scenario) result {
 				srv.Log.Add(name, "callback", nil, "REJECT "+pl)
 				return errRejected
 			}
+			if i < len(sc.Plan) && sc.Plan[i] == 'c' {
+				// the application accepts the message and, from another goroutine,
+				// closes the client while this callback is still running
+				srv.Log.Add(name, "callback", nil, "ACCEPT "+pl)
+				go func() { _ = c.Close() }()
+				time.Sleep(2 * time.Millisecond) // shaping: let Close get going
+				return nil
+			}
 			srv.Log.Add(name, "callback", nil, "ACCEPT "+pl)
 			return nil
 		}
@@ -583,7 +591,7 @@ func interesting(sc []item) bool {
 func TestCheck(t *testing.T) {
 	r := h.New("C10", "fault_enumeration")
 	depth := r.Pick(3, 4)
-	r.Rule(fmt.Sprintf("all scripted-broker scripts of length <= %d over {PUBLISH q2(id 1,2), PUBLISH q2(1,dup), PUBLISH q1(1), PUBLISH q0, PUBREL(1,2), drop+resume} (plus sampled longer ones with 3 ids in thorough) all scripts of length <= 3 over {PUBLISH q1(1), PUBLISH q1(1,dup), PUBLISH q1(2,dup), drop+resume}, and scripts mixing the QoS 2 handshakes of ids 1,2 with flows of the application's own on the same client (Subscribe, Unsubscribe, Publish QoS 1, whose acknowledgements carry the same numeric ids) x callback plans {all nil, error at the 1st / 2nd / 3rd application callback} x both callback timing modes, each first run without faults and then with every single client-side send fault (k-th Send of each connection, before/after: i.e. at every acknowledgement the client writes); a QoS 0 marker through the client's single processor fences every step; a completion phase retransmits PUBREL for every PUBREC without PUBCOMP. Oracle: model driven by what the client received (event log), callback invocations, acknowledgements written. Non-trivial = scripts with a complete or interrupted QoS 2 handshake; distinct by (script, plan, mode, fault)", depth))
+	r.Rule(fmt.Sprintf("all scripted-broker scripts of length <= %d over {PUBLISH q2(id 1,2), PUBLISH q2(1,dup), PUBLISH q1(1), PUBLISH q0, PUBREL(1,2), drop+resume} (plus sampled longer ones with 3 ids in thorough) all scripts of length <= 3 over {PUBLISH q1(1), PUBLISH q1(1,dup), PUBLISH q1(2,dup), drop+resume}, and scripts mixing the QoS 2 handshakes of ids 1,2 with flows of the application's own on the same client (Subscribe, Unsubscribe, Publish QoS 1, whose acknowledgements carry the same numeric ids) x callback plans {all nil, error at the 1st / 2nd / 3rd application callback, the application closing the client from another goroutine during the 1st / 2nd callback} x both callback timing modes, each first run without faults and then with every single client-side send fault (k-th Send of each connection, before/after: i.e. at every acknowledgement the client writes); a QoS 0 marker through the client's single processor fences every step; a completion phase retransmits PUBREL for every PUBREC without PUBCOMP. Oracle: model driven by what the client received (event log), callback invocations, acknowledgements written. Non-trivial = scripts with a complete or interrupted QoS 2 handshake; distinct by (script, plan, mode, fault)", depth))
 	r.Assume("exactly-once is asserted in the default callback mode only (announce-on-publish documents redelivery); deliveries the application rejects are not counted")
 	all := scripts(depth, 2)
 	rng := r.Rand("c10")
@@ -600,6 +608,10 @@ func TestCheck(t *testing.T) {
 			if i%3 == 0 {
 				base = append(base, scenario{Script: s, Plan: plan, Early: true})
 			}
+		}
+		if interesting(s) && i%2 == 0 {
+			// the application closes the client during the 1st / 2nd callback
+			base = append(base, scenario{Script: s, Plan: []string{"c", "nc"}[i/2%2], Early: false})
 		}
 	}
 	// QoS 1 redeliveries: the dup flag must change nothing (callback first, PUBACK
